@@ -11,11 +11,11 @@ Theorem C08_flags_monotone : forall g n sof ms s s', run g n sof s ms = Some s' 
 Proof. exact run_ctx_le. Qed.
 Print Assumptions C08_flags_monotone.
 
-(* ... and once AbortAllTests has been handled, the tests have been interrupted, a backend has failed (with a non-empty
-   text) or something failed under --stop-on-failure, no task taken afterwards is run: it is skipped with a reason.
+(* ... and once AbortAllTests has been handled, the tests have been interrupted, a backend has failed
+   or something failed under --stop-on-failure, no task taken afterwards is run: it is skipped with a reason.
    (Teardown and suite begin/end tasks do their work when skipped, so teardowns still happen and the report is completed.) *)
 Theorem C08_no_new_work_after_stop : forall g sof s t j,
-  stop_requested sof (cx s) -> c_pending (cx s) <> Some true -> decide g sof s t j <> Run.
+  stop_requested sof (cx s) -> decide g sof s t j <> Run.
 Proof. exact no_run_after_stop. Qed.
 Print Assumptions C08_no_new_work_after_stop.
 
@@ -27,7 +27,7 @@ Print Assumptions C08_stop_stays_requested.
    sub-suites — are skipped *)
 Theorem C08_abort_suite : forall g sof s t,
   t_kind (get_task g t) = KTest -> In (parent_path (t_path (get_task g t))) (c_aborted_suites (cx s)) ->
-  c_pending (cx s) <> Some true -> decide g sof s t JHandle <> Run.
+  decide g sof s t JHandle <> Run.
 Proof. exact no_run_in_aborted_suite. Qed.
 Print Assumptions C08_abort_suite.
 
